@@ -1083,6 +1083,70 @@ def w_seams(arg):
 # ---------------------------------------------------------------------------
 # configuration lists
 # ---------------------------------------------------------------------------
+# ---------------------------------------------------------------------------
+# rendezvous: a request whose application callback completes only after ANOTHER ATT PDU has been served
+# ---------------------------------------------------------------------------
+def rendezvous_cases():
+    out = []
+    for first in ('read', 'read_blob', 'read_by_type', 'read_multiple', 'write_request'):
+        for second, where in (('write_command', 'same'), ('write_request', 'other'), ('write_command', 'other')):
+            for b1, b2 in (('att', 'eatt'), ('eatt', 'att'), ('eatt', 'eatt2')):
+                out.append({'first': first, 'second': second, 'where': where, 'bearers': [b1, b1 if where == 'same' else b2]})
+    return [c for i, c in enumerate(out) if c not in out[:i]]
+
+
+def run_rendezvous(aw, case):
+    spec = [['svc', 'A000', True, [['A0C1', P_R | P_W, RW, ['dyn', 'gate_r', 5, 1], []], ['A0C2', P_W | P_WNR, RW, ['dyn', 'gate_w', 0, 0], []], ['A0C3', P_R, RW, ['b', 3, 2], []]]]]
+    A.GATE.clear()
+    db = aw.set_database(spec)
+    gate_h = next(r['handle'] for r in db.rows if r['type'] == A.uuid_bytes('A0C1'))
+    key_h = next(r['handle'] for r in db.rows if r['type'] == A.uuid_bytes('A0C2'))
+    other_h = next(r['handle'] for r in db.rows if r['type'] == A.uuid_bytes('A0C3'))
+    b1, b2 = case['bearers']
+    first = {
+        'read': A.req_read(gate_h),
+        'read_blob': A.req_read_blob(gate_h, 1),
+        'read_by_type': A.req_read_by_type(gate_h, gate_h, A.uuid_bytes('A0C1')),
+        'read_multiple': A.req_read_multiple([other_h, gate_h], False),
+        'write_request': A.req_write(gate_h, b'\x01\x02'),
+    }[case['first']]
+    second = A.req_write(key_h, b'\x07', 0x52 if case['second'] == 'write_command' else 0x12)
+    viol = []
+    sig = {'first': case['first'], 'second': case['second'], 'bearer_of_second': case['where']}
+    r1 = [r for r in aw.inject(b1, first) if A.is_server_originated(r)]
+    if r1:
+        # answered without the key having been written: not the situation of this check (would be a wrong answer elsewhere)
+        return [('rendezvous', dict(sig, what='answered_before_the_gate_opened'), f'{case}: {first.hex()} answered {[r.hex() for r in r1]} although the application has not produced the value yet')]
+    r2 = [r for r in aw.inject(b2, second) if A.is_server_originated(r)]
+    want2 = 1 if case['second'] == 'write_request' else 0
+    if b1 != b2:
+        r1 = [r for r in aw.take(b1) if A.is_server_originated(r)]
+    else:
+        # one bearer: the replies of both PDUs are on it; the command gets none, so all but `want2` belong to the request
+        r1, r2 = r2[: len(r2) - want2] if want2 else r2, r2[len(r2) - want2 :] if want2 else []
+    if len(r1) != 1:
+        viol.append(('rendezvous', dict(sig, what='first_request_not_answered' if not r1 else 'first_request_answered_twice'),
+                     f'{case}: {case["first"]} {first.hex()} on {b1} waits for the application, which waits for the write of the key value; {case["second"]} {second.hex()} on {b2} was delivered; replies to the first request: {[r.hex() for r in r1]} (exactly one response expected: a client would time out)'))
+    if len(r2) != want2:
+        viol.append(('rendezvous', dict(sig, what='second_pdu_replies'), f'{case}: {case["second"]} {second.hex()} on {b2} got {[r.hex() for r in r2]}, expected {want2} reply'))
+    aw.take_errors()
+    return viol
+
+
+def w_rendezvous(cases):
+    aw = world()
+    for name in ('eatt', 'eatt2'):
+        if name not in aw.eatt:
+            aw.open_eatt(name, 64)
+    st = core.Stats('rendezvous')
+    for case in cases:
+        out = run_rendezvous(aw, case)
+        st.case(case, None)
+        for check, sg, msg in out:
+            st.violation(check, sg, msg, {'mode': 'rendezvous', 'case': case})
+    return st
+
+
 def request_configs(quick):
     """quick: 5 MTUs x 2 bearers x 5 shapes x (all boundary lengths with no protected
     attribute + 4 lengths for each protected position); full request set where nothing
@@ -1228,6 +1292,12 @@ def run(ctx: core.Context) -> int:
                 vs[0].message + (f' (+{len(vs) - 1} more classes of first PDU)' if len(vs) > 1 else ''), {'mode': 'multi', 'cases': [v.case for v in vs]},
             )
 
+    if want('rendezvous'):
+        st = ctx.sub('rendezvous')
+        for r in core.pmap(w_rendezvous, core.split(rendezvous_cases(), 4), ctx.jobs):
+            st.merge(r)
+        ctx.log('rendezvous:', st.summary())
+
     if want('seams'):
         items = []
         for mtu in ([23, 185] if quick else QUICK_MTUS):
@@ -1249,6 +1319,7 @@ def run(ctx: core.Context) -> int:
             + ' on the ATT fixed channel and on a real EATT channel; distinct = (request group, opcode, reply opcode, error code, reply size bucket). '
             'pairs: all ordered pairs of ~20-30 representative PDUs delivered back-to-back. notify: 16 API forms x value lengths x MTU x 2 bearers. '
             'indications: all sequences up to depth ' + ('5' if quick else '7') + ' over {indA, indB, indAB, confirmation on att, on eatt, 30 s pass} and, per bearer, all sequences up to depth ' + ('4' if quick else '5') + ' over {indA, indB, indAB, notify A, 30 s pass, and the peer PDUs confirmation / CCCDs off / notify-only / notify+indicate / A off / Exchange MTU on that bearer}; outstanding indications counted on the wire (0x1D sent - 0x1E delivered - timed out); distinct = per-step outstanding counts + task outcomes. '
+            'rendezvous: a request (read, read blob, read by type, read multiple, write request) on an attribute whose asynchronous application callback completes only once a key attribute has been written x the PDU that writes it (write command on the same bearer, write request / command on another bearer) x bearer pairs: each request gets exactly one response. '
             'seams: same requests through capture seam and end-to-end seam.'
         ),
         assumptions=[
@@ -1266,6 +1337,11 @@ def run(ctx: core.Context) -> int:
 def replay_one(check, c):
     mode = c.get('mode')
     msgs = []
+    if mode == 'rendezvous':
+        with A.AttWorld() as aw:
+            for name in ('eatt', 'eatt2'):
+                aw.open_eatt(name, 64)
+            return [m for _, _, m in run_rendezvous(aw, c['case'])]
     if mode in ('single', 'pair'):
         with A.AttWorld() as aw:
             db = aw.set_database(c['spec'])
